@@ -15,7 +15,7 @@ IMPORTS = "Base Json MD5 Canon Export CorrC16"
 CASE_TYPE = "case_C16"
 MISMATCHES = "mismatches_C16"
 VIOLATIONS = "violations_C16"
-KNOWN = None
+KNOWN = "known_C16"
 SHARD = 16
 RULE = ("one case = one export_to + import_from round trip on a real project of 0-12 jobs (quick: 0-7) whose state "
         "points are drawn from textually colliding universes (1/10/100; 1/1.0/'1'/True/'True'; -1/-1.0; prefix keys "
@@ -544,11 +544,117 @@ FIXED = [
 ]
 
 
+def _base(**kw):
+    d = {"asc": True, "kind": "dir", "path": {"t": "none"}, "schema": {"t": "none"}, "pre": [], "strip": False}
+    d.update(kw)
+    return d
+
+
+FMT_ID = {"t": "fmt", "segs": [["lit", "id/"], ["jobid"]]}
+FALSY_POOL = [{}, {"a": 0}, {"a": False}, {"a": None}, {"a": {}}, {"a": []}, {"a": 0.0}, {"b": 0, "a": {}}]
+
+
+def _falsy(rng):
+    """round 4 (C16-11): state points that are FALSY in Python - above all the job with the empty state point {} -
+    and state points whose values are falsy, for every target kind; the automatic path refuses such heterogeneous
+    projects, so the path is by id, a '{job.id}' format string, a callable - or the job is alone (archive root)"""
+    n = rng.choice([1, 1, 2, 2, 3, 4])
+    sps = rng.sample(FALSY_POOL, n)
+    if {} not in sps and rng.random() < 0.75:
+        sps[rng.randrange(n)] = {}
+    jobs = [{"sp": typed(sp), "files": _files(rng, i)} for i, sp in enumerate(sps)]
+    if n == 1 and rng.random() < 0.6:
+        path = {"t": "none"}
+    else:
+        path = rng.choice([{"t": "false"}, {"t": "false"}, FMT_ID, {"t": "call", "names": ["j%d" % i for i in range(n)], "mode": "uniq"},
+                           {"t": "call", "names": ["p/q%d/r" % i for i in range(n)], "mode": "deep"}])
+    schema = rng.choice([{"t": "none"}, {"t": "none"}, {"t": "call", "mode": "faithful"}])
+    kind = rng.choice(KINDS + ["tar", "zip"])
+    pre = []
+    if rng.random() < 0.15:
+        pre.append({"sp": typed(rng.choice(sps)), "files": {"old.txt": b"old".hex()}})
+    return _base(universe="falsy", jobs=jobs, asc=rng.random() < 0.6, kind=kind, path=path, schema=schema, pre=pre)
+
+
+TRAIL_FMTS = [   # format strings whose last component is a literal: the job directory is a/<a>/run, not a/<a>
+    [["lit", "a/"], ["key", ["a"]], ["lit", "/run"]],
+    [["lit", "a/"], ["key", ["a"]], ["lit", "/data/raw"]],
+    [["lit", "b/"], ["key", ["b"]], ["lit", "/a/"], ["key", ["a"]], ["lit", "/out"]],
+    [["lit", "sim/a/"], ["key", ["a"]], ["lit", "/b/"], ["key", ["b"]], ["lit", "/v1.d"]],
+]
+
+
+def _trailing(rng):
+    """round 4 (existing_defect1): a layout that ends in a literal component, read back with the schema string
+    that describes it ('a/{a:int}/run'), every target kind, with and without state point files"""
+    ws = rng.choice([("x", "y_1", "z"), (True, False), (1.5, -0.25, 2.0), (7, 8, -9)])   # one type per key
+    pool = [{"a": v, "b": w} for v in (0, 1, 2, 10, -3) for w in ws]
+    sps = rng.sample(pool, rng.choice([1, 2, 2, 3, 3, 4]))
+    segs = rng.choice(TRAIL_FMTS)
+    if not any(s == ["key", ["b"]] for s in segs):
+        seen, out = set(), []
+        for sp in sps:              # 'b' is not part of the path: keep 'a' distinct and drop 'b' so that the
+            if sp["a"] not in seen:  # schema describes the complete state point
+                seen.add(sp["a"])
+                out.append({"a": sp["a"]})
+        sps = out
+    jobs = [{"sp": typed(sp), "files": _files(rng, i)} for i, sp in enumerate(sps)]
+    for i, j in enumerate(jobs):
+        if rng.random() < 0.4:
+            j["doc"] = typed({"n": i})
+    kind = rng.choice(KINDS + ["dir", "dir", "zip"])
+    strip = kind == "dir" and rng.random() < 0.35
+    return _base(universe="trailing-literal", jobs=jobs, asc=rng.random() < 0.6, kind=kind, path={"t": "fmt", "segs": segs},
+                 schema={"t": "auto_str", "wrong": False}, strip=strip,
+                 ospell=rng.choice(["abs", "abs", "exp", "./exp"]) if kind == "dir" else "abs")
+
+
+def _wrong_callable(rng):
+    """round 4 (existing_defect3): a callable schema that contradicts the state point file of ONE exported
+    directory (in value, so that the consistency check notices), the position of that directory in the listing
+    order varied; state point files in place, empty importing project, every target kind"""
+    vals = rng.sample([0, 1, 2, 3, 4, 5, 10], rng.choice([2, 3, 3, 4, 5]))
+    jobs = [{"sp": typed({"a": v}), "files": _files(rng, i)} for i, v in enumerate(vals)]
+    kind = rng.choice(["dir", "dir", "dir", "zip", "tar", "tar.gz"])
+    path = rng.choice([{"t": "none"}, {"t": "none"}, {"t": "false"}, FMT_ID])
+    return _base(universe="wrong-callable", jobs=jobs, asc=rng.random() < 0.5, kind=kind, path=path,
+                 schema={"t": "call", "mode": "wrong_at", "at": rng.randrange(len(vals))})
+
+
+FIXED_R4 = (
+    # the job with the empty state point, alone (archive root) and next to others, every kind
+    [_base(universe="empty-sp-alone", jobs=[{"sp": typed({}), "files": {"f.txt": b"e".hex(), "sub": None, "sub/g": b"g".hex()}}], kind=k)
+     for k in ("dir", "zip", "tar", "tar.gz")] +
+    [_base(universe="empty-sp", jobs=[{"sp": typed({}), "files": {"f.txt": b"e".hex()}}, {"sp": typed({"a": 0}), "files": {}},
+                                      {"sp": typed({"a": {}}), "files": {"f.txt": b"x".hex()}}], kind=k, path=p, asc=asc)
+     for k, p, asc in (("dir", {"t": "false"}, True), ("zip", {"t": "false"}, False), ("tar", {"t": "false"}, True),
+                       ("tar.bz2", FMT_ID, False), ("tar.xz", {"t": "call", "names": ["j0", "j1", "j2"], "mode": "uniq"}, True),
+                       ("tar", FMT_ID, True))] +
+    [_base(universe="empty-sp-callable", jobs=[{"sp": typed({}), "files": {"f.txt": b"e".hex()}}, {"sp": typed({"a": 1}), "files": {}}],
+           kind=k, path={"t": "false"}, schema={"t": "call", "mode": "faithful"}) for k in ("dir", "zip", "tar")] +
+    # a layout that ends in a literal component and the schema string that describes it
+    [_base(universe="trailing-literal", jobs=[{"sp": typed({"a": v}), "files": {"data.txt": (b"%d" % v).hex()}, "doc": typed({"n": v})} for v in (0, 1, 2)],
+           kind=k, path={"t": "fmt", "segs": TRAIL_FMTS[0]}, schema={"t": "auto_str", "wrong": False}, strip=st)
+     for k, st in (("dir", False), ("dir", True), ("zip", False), ("tar", False), ("tar.gz", False))] +
+    [_base(universe="trailing-literal", jobs=[{"sp": typed({"a": v, "b": w}), "files": {"data.txt": b"d".hex()}} for v, w in ((1, "x"), (10, "y_1"))],
+           kind="dir", path={"t": "fmt", "segs": TRAIL_FMTS[3]}, schema={"t": "auto_str", "wrong": False}, ospell="exp")] +
+    # a callable schema that is wrong for one directory: first / middle / last in the listing order
+    [_base(universe="wrong-callable", jobs=[{"sp": typed({"a": v}), "files": {"f.txt": b"f".hex()}} for v in (0, 1, 2, 3)],
+           kind=k, asc=asc, schema={"t": "call", "mode": "wrong_at", "at": at})
+     for k, asc, at in (("dir", True, 0), ("dir", True, 2), ("dir", True, 3), ("dir", False, 0), ("zip", True, 3), ("tar", True, 3))]
+)
+
+
 def gen_inputs(tier, rng):
     descs = [dict(d) for d in FIXED]
     n = 165 if tier == "quick" else 6000
     for i in range(n):
         descs.append(_one(rng, tier, big=(tier != "quick" and i % 3 == 0) or (tier == "quick" and i % 12 == 0)))
+    # round 4: classes of their own, generated AFTER the earlier cases so that those stay as they were
+    descs += [dict(d) for d in FIXED_R4]
+    m = 36 if tier == "quick" else 900
+    for i in range(m):
+        descs.append([_falsy, _trailing, _wrong_callable][i % 3](rng))
     return descs
 
 
@@ -909,6 +1015,9 @@ def run_case(desc):
                         intended[keys[0]] = None
                     elif s["mode"] == "wrong_one" and keys:
                         intended[keys[-1]] = {"wrong": 1}
+                    elif s["mode"] == "wrong_at" and keys:
+                        # wrong in VALUE for one exported directory (the consistency check can see it)
+                        intended[keys[s["at"] % len(keys)]] = {"a": -1}
                     elif s["mode"] == "subset":
                         # the callable only knows the first key of each state point
                         for kk in keys:
